@@ -43,6 +43,9 @@ CHECKS["C07"]=dict(level="fault_enumeration", design="DESIGN.md §3 C07", techni
 CHECKS["C03"]=dict(level="exploration", design="DESIGN.md §3 C03", technique="runtime monitoring: generated fork trees and arrival orders resolved by the real bstream forkable, store state compared after EVERY step with a fork-free REF-LINEAR run of the applied chain (differential), client-model trace checker over undo signals",
    text="After every new/undo/stalled/final step of every generated history every store held exactly the typed content of a fork-free execution of the currently applied chain with an exact reported size, and a client applying the undo signals ended with exactly the reference outputs of the canonical chain; undo signals always designated a held block.",
    note="Fork points are blocks of the tree (a fresh fork resolver cannot name its initial LIB as a junction); REF-LINEAR per chain shares the executors with the system under test.")
+CHECKS["C05"]=dict(level="exploration", design="DESIGN.md §3 C05", technique="runtime monitoring with a schedule controller: the real Scheduler.Update is driven by the harness (two pools: pending commands / undelivered messages, PRNG picks) over real tier2 jobs and squashes, invariant monitors on scheduler state + differential final state vs REF-LINEAR; real-loop runs under the Go race detector",
+   text="On every explored (grid, initial cache subset, worker count, schedule): no job started before the lower stages it loads were complete, each segment merged exactly once and in order, no invalid transition, clean quit with the reference stores at the hand-off and all requested outputs written; deadlocks are detected as exhausted pools or a walker polling with unchanging state. One recorded known finding (stage index shift).",
+   note="Commands are executed one at a time (overlap is modelled by delaying message delivery); async file writes are awaited between steps; bounded progress stands in for liveness.")
 NOT_YET = {}
 def main():
     checks=[]
